@@ -35,6 +35,7 @@ def h_engine_summary(o):
         "write_path_faults_fired(0 while the library writes no file)": s.get("fs_write_faults_fired", 0),
         "caller_threads_restricted_to_1_3_cpus(available_parallelism is part of the environment)": s.get("cpu_limited_threads", 0),
         "scenarios_per_worker_descriptor_limit(RLIMIT_NOFILE 256 / 1024 / 4096 / machine default, by worker range)": s.get("fd_limit_scenarios", {}),
+        "scenarios_in_a_private_mount_namespace(/dev/shm, /var/tmp, /tmp are sub-directories of the process's private directory; best effort, needs CAP_SYS_ADMIN)": s.get("private_mount_scenarios", 0),
         "calls_from_thread_local_destructor_at_thread_exit": s.get("teardown_ops", 0),
         "library_internal_threads_taken_under_scheduler_control(pthread_create seam)": s.get("library_threads", 0),
         "instance_handoff": s["instance_handoff"],
